@@ -110,9 +110,10 @@ func (x *Exec) run(st *State) {
 				}
 				_, txt := x.srcLine(v.Pos())
 				x.oblige(st, fmt.Sprintf("chan:%s:%s:%s", x.targetName(), ch.chanKey, txt), "pre", "channel invariant "+c.text, v.Pos(), t)
-			} else {
+			} else if x.tcontract == nil || len(x.tcontract.onSend) == 0 {
 				x.note("channel send ignored in %s", fr.fn)
 			}
+			x.chanGhost(st, fr, false, fr.get(x, v.X), True, v.Pos())
 		case *ssa.Store:
 			addr := fr.get(x, v.Addr)
 			val := fr.get(x, v.Val)
@@ -578,8 +579,16 @@ func (x *Exec) evalValue(st *State, fr *Frame, v ssa.Value) SV {
 		case token.ARROW:
 			r := freshSV(n.Type(), "recv")
 			x.wf(st, r)
-			if !x.chanAssume(st, fr, a, r, n.CommaOk) {
+			if !x.chanAssume(st, fr, a, r, n.CommaOk) && (x.tcontract == nil || len(x.tcontract.onRecv) == 0) {
 				x.note("channel receive in %s yields an unconstrained value", fr.fn)
+			}
+			if n.CommaOk && len(r.tup) != 2 {
+				r = x.splitTuple(n.Type(), r)
+			}
+			if n.CommaOk && len(r.tup) == 2 {
+				x.chanGhost(st, fr, true, r.tup[0], r.tup[1].t(), n.Pos())
+			} else if !n.CommaOk {
+				x.chanGhost(st, fr, true, r, True, n.Pos())
 			}
 			return r
 		}
@@ -733,6 +742,7 @@ func (x *Exec) evalValue(st *State, fr *Frame, v ssa.Value) SV {
 		k := 2
 		for si, sst := range n.States {
 			if sst.Dir != types.RecvOnly {
+				x.chanGhost(st, fr, false, fr.get(x, sst.Send), Eq(r.l[0], mkBV(int64(si), 64)), n.Pos())
 				continue
 			}
 			vt := tt.At(k).Type()
@@ -748,6 +758,14 @@ func (x *Exec) evalValue(st *State, fr *Frame, v ssa.Value) SV {
 				// holds when this case fired and the channel was open
 				st.assume(Implies(And(Eq(r.l[0], mkBV(int64(si), 64)), r.l[1]), t))
 			}
+			fired := Eq(r.l[0], mkBV(int64(si), 64))
+			if selectUsesRecvOk(n) {
+				fired = And(fired, r.l[1])
+			} else if x.tcontract != nil && len(x.tcontract.onRecv) > 0 {
+				// the program does not look at recvOk: like a plain receive, the channel is taken to be open
+				x.havocked["channels received from without ok-check are not closed: "+x.targetName()] = true
+			}
+			x.chanGhost(st, fr, true, val, fired, n.Pos())
 			off += nl
 			k++
 		}
@@ -1094,6 +1112,90 @@ func (x *Exec) binop(st *State, fr *Frame, n *ssa.BinOp) SV {
 		panic(abortErr{"unsupported binop " + n.Op.String()})
 	}
 	return scalarSV(n.Type(), BvBin(op, at, bt))
+}
+
+func selectUsesRecvOk(n *ssa.Select) bool {
+	if n.Referrers() == nil {
+		return false
+	}
+	for _, r := range *n.Referrers() {
+		if e, ok := r.(*ssa.Extract); ok && e.Index == 1 && e.Referrers() != nil && len(*e.Referrers()) > 0 {
+			return true
+		}
+	}
+	return false
+}
+
+// chanGhost applies the onrecv / onsend clauses of the function under contract at a channel operation:
+// v is the value transferred, ok the condition under which the transfer happened.
+func (x *Exec) chanGhost(st *State, fr *Frame, recv bool, v SV, ok *Term, pos token.Pos) {
+	if x.tcontract == nil {
+		return
+	}
+	cl := x.tcontract.onSend
+	what := "onsend"
+	if recv {
+		cl = x.tcontract.onRecv
+		what = "onrecv"
+	}
+	if len(cl) == 0 || len(v.l) == 0 {
+		return // no clauses, or a signalling channel (struct{}): nothing is transferred
+	}
+	okv := scalarSV(types.Typ[types.Bool], ok)
+	mkEnv := func() *Env {
+		env := &Env{x: x, st: st, vars: map[string]SV{"v": v, "ok": okv}, pkg: fr.fn.Pkg.Pkg}
+		if fr.fn == x.target {
+			for k, lv := range st.lets {
+				env.vars[k] = lv
+			}
+		}
+		return env
+	}
+	_, txt := x.srcLine(pos)
+	nreq := 0
+	for _, c := range cl {
+		func() {
+			defer func() {
+				if r := recover(); r != nil {
+					if ee, isEval := r.(evalErr); isEval {
+						panic(abortErr{fmt.Sprintf("%s:%d: %s %s: %s", c.file, c.line, what, c.text, ee.msg)})
+					}
+					panic(r)
+				}
+			}()
+			env := mkEnv()
+			switch c.kind {
+			case "assume":
+				t, err := env.EvalBool(c.expr)
+				if err != nil {
+					panic(abortErr{fmt.Sprintf("%s:%d: %s assume: %v", c.file, c.line, what, err)})
+				}
+				x.havocked["assumed at channel receive ("+c.text+") in "+x.targetName()] = true
+				st.assume(Implies(ok, t))
+			case "requires":
+				t, err := env.EvalBool(c.expr)
+				if err != nil {
+					panic(abortErr{fmt.Sprintf("%s:%d: %s requires: %v", c.file, c.line, what, err)})
+				}
+				nreq++
+				x.oblige(st, fmt.Sprintf("chan-send:%s#%d:%s", x.targetName(), nreq, txt), "pre", "at channel send: "+c.text, pos, Implies(ok, t))
+				st.assume(Implies(ok, t))
+			case "gset":
+				mls := x.modLocs(env, c.exprs[0])
+				target := mls[0].ptr
+				nv := env.eval(c.expr, derefType(target.ty))
+				old := st.load(x, target)
+				if ok != True && len(old.l) == len(nv.l) {
+					ls := make([]*Term, len(nv.l))
+					for i := range nv.l {
+						ls[i] = Ite(ok, nv.l[i], old.l[i])
+					}
+					nv = SV{ty: nv.ty, l: ls}
+				}
+				st.store(x, target, nv)
+			}
+		}()
+	}
 }
 
 // chanInv finds the declared invariant of a channel value (by the struct field it was loaded from).
